@@ -186,6 +186,21 @@ CHECKS = {
         design_ref='DESIGN.md §2 C03; notes/C03.md',
         note='Trusted: the independent readers. Integers below 100000 (utils.are_different compares ints with a relative tolerance). F21 is an open known finding (cli-order part).',
         technique='Hypothesis generated systems, cross-file consistency oracle over independently parsed outputs'),
+    'C07': dict(
+        category='fault_enumeration',
+        text=('(a) Generated histories of deferred opens / writes / re-opens / chdir / finalise / discard over pre-existing files and '
+              'occupied backup slots are interpreted against a directory model; the tree must equal the model after every step. '
+              '(b) For every history ending in finalise, every filesystem call made by the writer during finalisation is failed in '
+              'turn (before its effect, after its effect, torn write) on a fresh directory - an exhaustive enumeration of the crash '
+              'points of that history - and every pre-existing file must survive byte-identical under its own or a backup name. '
+              '(c) Every library writer (PDB, GRO, topology + ITPs, atom types, non-bonded parameters, DSSP save file, contact map) is '
+              'called with default arguments: nothing on disk before finalise, exact content after, nothing ever after discard. '
+              '(d) The real CLI is run as a subprocess with generated warning-producing ingredients and -maxwarn specifications; its '
+              'stderr is parsed, the C08 reference decides the leftover, and exit code, new files, backups and byte-identity of the '
+              'directory must agree. Fault enumeration is the right level for the crash-point quantifier; the rest is exploration.'),
+        design_ref='DESIGN.md §2 C07; notes/C07.md',
+        note='Trusted: the directory model; harness-side proxies for shutil/os/open inside vermouth.file_writer. Not reached: power loss inside one write(), concurrent writers. 12 CLI runs in the quick tier.',
+        technique='Model-based history generation + exhaustive fault injection at every filesystem call of the finalisation; CLI differential against the C08 reference'),
 }
 
 NOT_YET = 'check not built yet in this round (planned, see DESIGN.md §2)'
